@@ -37,6 +37,7 @@ type Obligation struct {
 	Text    string
 	Inputs  []namedTerm
 	Result  *SolveResult
+	Blk     *ssa.BasicBlock
 	Backend string // "smt" or "syntactic"
 	Status  string // discharged | failed
 	Detail  string
@@ -65,6 +66,9 @@ type Exec struct {
 	inputs  []namedTerm
 	globals map[*ssa.Global]int
 
+	factBlk   []*ssa.BasicBlock
+	curBlk    *ssa.BasicBlock
+	reachMemo map[*ssa.Function][][]bool
 	tagFacts    []*Term
 	sealedImpls map[string][]int
 	pureSeen  map[string]bool
@@ -128,7 +132,7 @@ type loopInfo struct {
 
 func newExec(prog *Program, cs *Contracts) *Exec {
 	return &Exec{prog: prog, cs: cs, notes: map[string]bool{}, assumed: map[string]bool{}, names: map[string]int{},
-		typeIDs: map[string]int{}, typeOf: map[int]types.Type{}, globals: map[*ssa.Global]int{}, sealedImpls: map[string][]int{}}
+		typeIDs: map[string]int{}, typeOf: map[int]types.Type{}, globals: map[*ssa.Global]int{}, sealedImpls: map[string][]int{}, reachMemo: map[*ssa.Function][][]bool{}}
 }
 
 func (ex *Exec) note(f string, a ...any) {
@@ -143,6 +147,55 @@ func (ex *Exec) fact(st *State, f *Term) {
 		f = Implies(st.reach, f)
 	}
 	ex.facts = append(ex.facts, f)
+	ex.factBlk = append(ex.factBlk, ex.curBlk)
+}
+
+// relevantFacts returns the facts recorded before the obligation whose block is the obligation's
+// block or a forward ancestor of it (facts of other branches are guarded by reach conditions the
+// solver can falsify, so dropping them neither adds nor removes counterexamples).
+func (ex *Exec) relevantFacts(o *Obligation) []*Term {
+	var out []*Term
+	for i := 0; i < o.NFacts; i++ {
+		fb := ex.factBlk[i]
+		if fb == nil || o.Blk == nil || fb == o.Blk || ex.fwdReach(fb, o.Blk) {
+			out = append(out, ex.facts[i])
+		}
+	}
+	return out
+}
+
+func (ex *Exec) fwdReach(a, b *ssa.BasicBlock) bool {
+	if a.Parent() != b.Parent() {
+		return true
+	}
+	fn := a.Parent()
+	m, ok := ex.reachMemo[fn]
+	if !ok {
+		n := len(fn.Blocks)
+		m = make([][]bool, n)
+		li := computeLoops(fn)
+		order := rpo(fn, li)
+		for i := range m {
+			m[i] = make([]bool, n)
+		}
+		// process in reverse RPO so successors are complete
+		for i := len(order) - 1; i >= 0; i-- {
+			u := order[i]
+			for _, v := range u.Succs {
+				if li.isBack[[2]int{u.Index, v.Index}] {
+					continue
+				}
+				m[u.Index][v.Index] = true
+				for k := 0; k < n; k++ {
+					if m[v.Index][k] {
+						m[u.Index][k] = true
+					}
+				}
+			}
+		}
+		ex.reachMemo[fn] = m
+	}
+	return m[a.Index][b.Index]
 }
 
 func (ex *Exec) addFacts(st *State, fs []*Term) {
@@ -165,7 +218,10 @@ func (ex *Exec) oblige(fr *Frame, st *State, kind, label string, goal *Term, pos
 		name = fmt.Sprintf("%s~%d", name, n)
 	}
 	g := Implies(st.reach, goal)
-	o := &Obligation{Name: name, Kind: kind, Func: fname, NFacts: len(ex.facts), Goal: g, Text: text, Backend: "smt", Inputs: ex.inputs}
+	o := &Obligation{Name: name, Kind: kind, Func: fname, NFacts: len(ex.facts), Goal: g, Text: text, Backend: "smt", Inputs: ex.inputs, Blk: ex.curBlk}
+	if kind == "ensures" || kind == "frame" || kind == "lemma" {
+		o.Blk = nil
+	}
 	if pos.IsValid() {
 		p := ex.prog.Fset.Position(pos)
 		o.Pos = fmt.Sprintf("%s:%d", shortFile(p.Filename), p.Line)
@@ -540,6 +596,9 @@ func (ex *Exec) run(fr *Frame, st *State) callResult {
 		cur := ex.mergeStates(ins)
 		if cur.reach.IsFalse() {
 			continue
+		}
+		if fr.parent == nil {
+			ex.curBlk = b
 		}
 		if _, isHead := fr.li.body[b]; isHead {
 			cur = ex.enterLoop(fr, b, cur)
